@@ -237,6 +237,42 @@ edit("B28-encoder-len-eq-zero", "actix-http/src/h1/encoder.rs", repl("msg.is_emp
 edit("B29-dispatcher-matches-none", "actix-http/src/h1/dispatcher.rs", repl("&& inner_p.payload.is_none()", "&& matches!(inner_p.payload, None)", 1))
 edit("B30-dispatcher-len-eq-zero", "actix-http/src/h1/dispatcher.rs", repl("if state_is_none && inner_p.write_buf.is_empty() {", "if state_is_none && inner_p.write_buf.len() == 0 {", 1))
 
+# ---- edits around the rules added late -------------------------------------------------------------------
+edit("B32-timer-init-if-let", "actix-http/src/h1/timer.rs", repl("if timer.as_mut().poll(cx).is_ready() {", "if let std::task::Poll::Ready(()) = timer.as_mut().poll(cx) {", 1))
+def b33(s):
+    old = """                                    ping_pong.in_flight = false;
+
+                                    let dead_line = this.config.keep_alive_deadline().unwrap();
+                                    ping_pong.timer.as_mut().reset(dead_line.into());"""
+    new = """                                    let dead_line = this.config.keep_alive_deadline().unwrap();
+                                    ping_pong.timer.as_mut().reset(dead_line.into());
+                                    ping_pong.in_flight = false;"""
+    assert s.count(old) == 1
+    return s.replace(old, new)
+edit("B33-h2-pong-reorder", "actix-http/src/h2/dispatcher.rs", b33)
+def b34(s):
+    old = """    head.headers_mut()
+        .insert(header::CONTENT_ENCODING, encoding.to_header_value());
+    head.headers_mut()
+        .append(header::VARY, HeaderValue::from_static("accept-encoding"));
+
+    // a length set for the uncoded body does not describe the coded one
+    head.headers_mut().remove(header::CONTENT_LENGTH);
+"""
+    new = """    // a length set for the uncoded body does not describe the coded one
+    head.headers_mut().remove(header::CONTENT_LENGTH);
+
+    head.headers_mut()
+        .insert(header::CONTENT_ENCODING, encoding.to_header_value());
+    head.headers_mut()
+        .append(header::VARY, HeaderValue::from_static("accept-encoding"));
+"""
+    assert s.count(old) == 1
+    return s.replace(old, new)
+edit("B34-update_head-reorder", "actix-http/src/encoding/encoder.rs", b34)
+edit("B35-removed-size-hint-len", "actix-http/src/header/map.rs", repl("            None => (0, Some(0)),", "            None => {\n                let n = 0;\n                (n, Some(n))\n            }", 1))
+edit("B36-sized-stream-size-let", "actix-http/src/body/sized_stream.rs", repl("        BodySize::Sized(self.size)", "        let declared = self.size;\n        BodySize::Sized(declared)", 1))
+
 def main():
     out = os.path.join(V, "benign")
     os.makedirs(out, exist_ok=True)
